@@ -284,3 +284,5 @@ def run(ctx):
     from . import c16
     ctx.run_rule("R15.5", "the skip code in effect is the test case's own one when it sets one: `skip_document_code` is merged receiver-first, unconditionally (a value equal to the default is a value) (shared with C16 R16.1) [E-FLOW]",
                  lambda c: c16._merge_fields(c, c.prog.fn("TestCaseConfig::with_defaults_from"), "TestCaseConfig", only={"skip_document_code"}), floor=1)
+    from . import c13
+    ctx.run_rule("R15.6", "single-script execution: test cases that disagree on skip_document_code are rejected by compile_testcase (the scan compares every exit code with the one compiled code) (shared with C13 R13.11) [E-PATH]", lambda c: c13.consistency_gates(c, ["skip_document_code"]), floor=1)
